@@ -123,12 +123,12 @@ fn c02_o2_set_field() {
     if od >= 1 {
         assert!(w.rt.last_changed_revision(Durability::MEDIUM) == now, "C02: write to a MEDIUM+ field did not invalidate MEDIUM memos");
     } else {
-        assert!(w.rt.last_changed_revision(Durability::MEDIUM) == before_m);
+        assert!(w.rt.last_changed_revision(Durability::MEDIUM) == before_m, "C03: writing a LOW field invalidated MEDIUM memos");
     }
     if od >= 2 {
         assert!(w.rt.last_changed_revision(Durability::HIGH) == now, "C02: write to a HIGH field did not invalidate HIGH memos");
     } else {
-        assert!(w.rt.last_changed_revision(Durability::HIGH) == before_h);
+        assert!(w.rt.last_changed_revision(Durability::HIGH) == before_h, "C03: writing a field below HIGH invalidated HIGH memos");
     }
     assert!(crate::runtime::verif::inv(&w.rt), "C02: runtime revision invariant broken by the setter");
     kani::cover!(od == 2 && new_d == Some(Durability::LOW));
